@@ -77,7 +77,9 @@ func vfSyncHeads(ctx context.Context, to iface.Store, heads []ipfslog.Entry) {
 	if err := to.Sync(ctx, heads); err != nil {
 		vfInfra("sync: %v", err)
 	}
-	deadline := time.After(30 * time.Second)
+	deadline := time.After(120 * time.Second)
+	again := time.NewTicker(10 * time.Second)
+	defer again.Stop()
 	for {
 		select {
 		case <-sub.Out():
@@ -88,8 +90,12 @@ func vfSyncHeads(ctx context.Context, to iface.Store, heads []ipfslog.Entry) {
 			if hasAll() {
 				return
 			}
+		case <-again.C:
+			if err := to.Sync(ctx, heads); err != nil {
+				vfInfra("sync (repeated): %v", err)
+			}
 		case <-deadline:
-			vfInfra("foreign heads did not reach the node within 30s")
+			vfInfra("foreign heads did not reach the node within 120s")
 		}
 	}
 }
